@@ -641,7 +641,7 @@ func mergeSources(a, b string) string {
 }
 
 var apiSubjects = map[string][2]string{ // checker -> {kind, name}
-	"appendAssign": {"builtin", "append"}, "appendCombine": {"builtin", "append"}, "newDeref": {"builtin", "new"},
+	"appendAssign": {"builtin", "append"}, "appendCombine": {"builtin", "append"}, "newDeref": {"builtin", "new"}, "rangeAppendAll": {"builtin", "append"},
 	"badRegexp": {"pkg", "regexp"}, "regexpPattern": {"pkg", "regexp"}, "regexpSimplify": {"pkg", "regexp"},
 	"sortSlice": {"pkg", "sort"}, "filepathJoin": {"pkg", "path/filepath"}, "flagName": {"pkg", "flag"},
 }
